@@ -82,27 +82,30 @@ impl FromStr for PieceMove {
         let tokens: Vec<&str> = value.split('=').collect();
         let piece_str = tokens[0];
         let len = piece_str.len();
+        if len < 4 {
+            return Err(Error::InvalidBoardMoveRepresentation);
+        }
 
         let piece_type = if len == 4 {
             PieceType::Pawn
         } else {
-            match PieceType::from_str(&piece_str[..1]) {
-                Ok(p) => p,
-                Err(_) => {
+            match piece_str.get(..1).map(PieceType::from_str) {
+                Some(Ok(p)) => p,
+                _ => {
                     return Err(Error::InvalidBoardMoveRepresentation);
                 }
             }
         };
 
-        let source_square = match Square::from_str(&piece_str[(len - 4)..(len - 2)]) {
-            Ok(s) => s,
-            Err(_) => {
+        let source_square = match piece_str.get((len - 4)..(len - 2)).map(Square::from_str) {
+            Some(Ok(s)) => s,
+            _ => {
                 return Err(Error::InvalidBoardMoveRepresentation);
             }
         };
-        let destination_square = match Square::from_str(&piece_str[(len - 2)..]) {
-            Ok(s) => s,
-            Err(_) => {
+        let destination_square = match piece_str.get((len - 2)..).map(Square::from_str) {
+            Some(Ok(s)) => s,
+            _ => {
                 return Err(Error::InvalidBoardMoveRepresentation);
             }
         };
@@ -112,7 +115,12 @@ impl FromStr for PieceMove {
             source_square,
             destination_square,
             if tokens.len() > 1 {
-                Some(PieceType::from_str(tokens[1]).unwrap())
+                match PieceType::from_str(tokens[1]) {
+                    Ok(p) => Some(p),
+                    Err(_) => {
+                        return Err(Error::InvalidBoardMoveRepresentation);
+                    }
+                }
             } else {
                 None
             },
